@@ -268,9 +268,14 @@ static void do_run(char **w, int n)
 		} else if (c[0] == 'B') {
 			long long expect = 0;
 			for (;;) {
-				const void *p; size_t sz; la_int64_t off;
+				const void *p; size_t sz; la_int64_t off = expect;
 				int k = archive_read_data_block(a, &p, &sz, &off);
-				if (k == ARCHIVE_EOF) { bst = ARCHIVE_EOF; if (esize >= 0 && off == esize && off > expect) d_zero(&d, off - expect); break; }
+				if (k == ARCHIVE_EOF) {
+					/* the offset reported with end-of-data closes a trailing hole (C06) */
+					if (esize >= 0 && off > esize) beyond = 1;
+					if (off > expect) d_zero(&d, off - expect);
+					bst = ARCHIVE_EOF; break;
+				}
 				if (k < ARCHIVE_OK && k != ARCHIVE_WARN) { bst = k; break; }
 				if (off < expect) { ord = 1; bst = 78; break; }
 				if (esize >= 0 && off + (long long)sz > esize) beyond = 1;
